@@ -188,7 +188,12 @@ mpz_inp_raw(mpz_ptr x, FILE *fp)
     if (out->writtenSize != 0)
     {
         if (fread(out->written, out->writtenSize, 1, fp) != 1)
+        {
+            /* mpz_inp_raw_p has already set the announced size, but the limbs
+               were never read: leave a well formed value behind */
+            SIZ(x) = 0;
             return 0;
+        }
 
         mpz_inp_raw_m(x, out);
     }
